@@ -108,14 +108,14 @@ def rule_attach(rep: Report, repo: Repo) -> None:
               expected='attach ReaderDeviceMemory(mem) before each Python loop')
     rn = repo.func(RUN, '_run_native')
     lines = {dotted(c.func): c.lineno for c in calls(rn) if dotted(c.func) in ('io_device.attach_memory', 'core.run', 'core.set_words', 'core.add_segment')}
-    att = [norm(c.args[0]) for c in calls(rn) if dotted(c.func) == 'io_device.attach_memory']
+    att = [norm(_rn(rn, c.args[0], allow_calls=True, keep=('core', 'mem'))) for c in calls(rn) if dotted(c.func) == 'io_device.attach_memory']      # `w = mem.memory_width` read through
     ok = att == ['NativeDeviceMemory(core, mem.memory_width)'] and lines.get('core.add_segment', 0) < lines.get('io_device.attach_memory', 0) < lines.get('core.run', 0) \
         and lines.get('core.set_words', 0) < lines.get('io_device.attach_memory', 0)
     rep.check(ok, 'C19.ATTACH', '_run_native', f'{att} at line {lines.get("io_device.attach_memory")} (load before, run after)', f'{RUN}:{rn.lineno}')
     # `core` is bound exactly once, to a _fjcore.Memory built for the reader's width; the adapter and the run use that name
     core_defs = [s.value for s in ast.walk(rn) if isinstance(s, ast.Assign) and len(s.targets) == 1 and norm(s.targets[0]) == 'core']
     same_core = (len(core_defs) == 1 and isinstance(core_defs[0], ast.Call) and dotted(core_defs[0].func) == '_fjcore.Memory'
-                 and bool(core_defs[0].args) and norm(core_defs[0].args[0]) == 'mem.memory_width')
+                 and bool(core_defs[0].args) and norm(_rn(rn, core_defs[0].args[0], keep=('mem',))) == 'mem.memory_width')
     rep.check(same_core, 'C19.ATTACH', '_run_native:same-core', 'the adapter wraps the Memory object that runs', f'{RUN}:{rn.lineno}')
 
 
